@@ -41,7 +41,8 @@ def layers(tier):
 
 
 def floors(tier):
-    return {"contents": 8000, "comparisons": 150000, "helper_yes": 20000, "helper_no": 20000, "_distinct_nontrivial": 20000}
+    return {"contents": 8000, "comparisons": 150000, "helper_yes": 20000, "helper_no": 20000, "rooms_created_by_actor_or_target": 1000,
+            "_distinct_nontrivial": 20000}
 
 
 def contents(tier):
@@ -96,13 +97,14 @@ def encode_levels(c, how):
     return out
 
 
-def build_cases(version, c):
-    """[(action, helper key path, auth triple)]"""
+def build_cases(version, c, creator=CREATOR):
+    """[(action, helper key path, auth triple)]; creator: who created the room (the helpers do not
+    know; with a power-levels event in the state the creator has no implicit level)"""
     out = []
 
     def room(target_membership):
         b = authgen.Builder(version)
-        b.create()
+        b.create(sender=creator)
         b.member(CREATOR, "join")
         b.member(ACTOR, "join")
         if target_membership is not None:
@@ -147,7 +149,17 @@ def shard(ctx):
             if ctx.tier == "quick" and (k // ctx.nshards) % 3:
                 continue
             ce = encode_levels(c, how)
-            cases = build_cases(version, ce)
+            # rooms created by the actor / the target when they have no users entry of their own
+            creator = CREATOR
+            if ACTOR not in c["users"] and k % 3 == 0:
+                creator = ACTOR
+            elif ACTOR not in c["users"] and k % 3 == 1 and c["users"].get(TARGET) == c.get("users_default"):
+                c = dict(c, users={u: l for u, l in c["users"].items() if u != TARGET})
+                ce = encode_levels(c, how)
+                creator = TARGET
+            if creator != CREATOR:
+                rep.count("rooms_created_by_actor_or_target")
+            cases = build_cases(version, ce, creator)
             helper_cmds.append({"op": "power_helpers", "content": json.dumps(ce), "actor": ACTOR, "target": TARGET,
                                 "message_types": MSG_TYPES, "state_types": STATE_TYPES + ["m.room.third_party_invite"]})
             metas.append((c, ce, how, cases, len(auth_items)))
@@ -183,7 +195,7 @@ def run_batch(ctx, w, version, helper_cmds, metas, auth_items):
         a = c["users"].get(ACTOR, c.get("users_default", 0))
         # effective level and notification predicate
         rep.judged()
-        if helpers["for_user_actor"] != a or helpers["for_user_target"] != c["users"][TARGET]:
+        if helpers["for_user_actor"] != a or helpers["for_user_target"] != c["users"].get(TARGET, c.get("users_default", 0)):
             rep.violation("effective_level_differs", "v%d" % version, {"content": ce, "helpers": helpers}, hcmd)
         rep.judged()
         if helpers["can_notify_room"] != helpers["push_condition_room"]:
@@ -213,5 +225,6 @@ def run_batch(ctx, w, version, helper_cmds, metas, auth_items):
                 rep.violation(kind, key,
                               {"version": version, "action": action, "helper_says": ans[0], "auth_check": res["result"],
                                "reference_rules": {"allowed": model_ok, "rule": rule}, "content": ce,
-                               "actor_level": a, "target_level": c["users"][TARGET]},
+                               "actor_level": a, "target_level": c["users"].get(TARGET, c.get("users_default", 0)),
+                               "room_creator": t["state"][0]["sender"]},
                               {"ops": [hcmd, {"op": "auth_check", "version": str(version), "event": t["event"], "state": t["state"]}]})
